@@ -44,8 +44,8 @@ RULE = ("cases = (a) every (operator, n_orbs, ordering, determinant); (b) every 
         "{normal-ordered, dense Fock, JW, BK, JKMN, scBK}); (d) every (penalty, n_orbs, ordering, target, weight[, encoding]) "
         "and every (subset of combined_penalty keys, weight assignment in {0,0.5,3}, target profile); (e) every (ansatz, "
         "molecule, ordering, parameter vector of the alphabet). Non-trivial: (a) determinant with a non-zero eigenvalue / "
-        "not an S^2 eigenvector; (b) encoding other than JW-interleaved; (c) Hamiltonian with two-body terms and an operator "
-        "that does not commute term by term; (d) non-zero penalty matrix; (e) the prepared state is a genuine superposition "
+        "not an S^2 eigenvector; (b) encoding other than JW-interleaved; (c) Hamiltonian with two-body terms; (d) non-zero "
+        "penalty matrix (combined: at least two active keys); (e) the prepared state is a genuine superposition "
         "(largest |amplitude|^2 < 1 - 1e-6), i.e. the ansatz moved the reference determinant. distinct = distinct case tuple")
 ASSUMPTIONS = [
     "n_orbs <= 3 (quick) / <= 4 (thorough) for operators and penalties; Hamiltonians with <= 8 spin-orbitals from the C04 "
@@ -54,7 +54,10 @@ ASSUMPTIONS = [
     "scBK: every (n_electrons, spin >= 0) sector admissible for the register; determinants of the matching parity sector",
     "penalty targets: the whole spectrum + two off-spectrum values (seed-perturbed); weights {0.5, 3}; combined_penalty "
     "weights {0, 0.5, 3} (negative weights are outside the documented domain)",
-    "conservation: only N and S_z are claimed for the ansaetze (not S^2); pUCCD: number of pairs in its own HCB encoding; "
+    "penalty targets closer than 1e-8 (but not equal) to a value at which a normal-ordered coefficient vanishes are not in the "
+    "alphabet: openfermion deletes coefficients below its EQ_TOLERANCE = 1e-8 (number_operator_penalty(2, 0.5+2e-9) is off by "
+    "1.6e-8); physical targets (integers, half-integers, s(s+1)) are never in that window",
+    "conservation: only N and S_z are claimed for the ansaetze (not S^2); UCCSD on RHF, ROHF and UHF ('UCCSD-UHF') references; pUCCD: number of pairs in its own HCB encoding; "
     "UCC1/UCC3: the up_then_down=True layout that VQESolver enforces for them (N in both layouts); ADAPT: the default "
     "UCCGSD fermionic pool through ADAPTSolver.build() (the Majorana pools are single Majorana monomials and are not "
     "particle conserving by construction - not claimed), sequences = one operator, two operators (thorough: three for "
@@ -298,8 +301,9 @@ class Cx:
         self.acc, self.unit = acc, unit
 
     def bad(self, site, kind, sig, detail=None, **extra):
-        case = dict(self.unit, focus=f"{site}/{kind}", **extra)
-        self.acc.violation(f"{site}/{kind}/{slug(sig)}", case, detail, group=f"{site}/{kind}")
+        key = f"{site}/{kind}/{slug(sig)}"
+        case = dict(self.unit, focus=f"{site}/{kind}", want=key, **extra)
+        self.acc.violation(key, case, detail, group=f"{site}/{kind}")
 
 
 def check_encoded(cx, site, sig, qop, R, enc, n, utd, ne, spin, nt_key):
@@ -599,7 +603,6 @@ def _chain(k, d):
 
 GEOMS = {
     "H2": _chain(2, 0.74),
-    "HeH+": [("He", (0.0, 0.0, 0.0)), ("H", (0.0, 0.0, 0.775))],
     "H3": [("H", (0.0, 0.0, 0.0)), ("H", (0.0, 0.0, 0.93)), ("H", (0.0, 0.25, 1.90))],
     "H3+": [("H", (0.0, 0.0, 0.0)), ("H", (0.0, 0.0, 0.88)), ("H", (0.0, 0.79, 0.40))],
     "H4": [("H", (0.0, 0.0, 0.0)), ("H", (0.0, 0.0, 0.85)), ("H", (0.0, 0.0, 1.80)), ("H", (0.0, 0.0, 2.70))],
@@ -610,7 +613,6 @@ GEOMS = {
 MOLS = {
     "H2": ("H2", 0, 0, "sto-3g", None, (1.0, 1.9)),
     "H2_631g": ("H2", 0, 0, "6-31g", None, (1.0, 1.9)),
-    "HeH+": ("HeH+", 1, 0, "sto-3g", None, (1.0, 1.6)),
     "H3+": ("H3+", 1, 0, "sto-3g", None, (1.0, 1.7)),
     "H3": ("H3", 0, 1, "sto-3g", None, (1.0, 1.6)),
     "H3-": ("H3", -1, 0, "sto-3g", None, (1.0, 1.6)),
@@ -735,13 +737,14 @@ def run_comm(acc, unit):
 # ---------------------------------------------------------------------------------------------------------------------
 # (e) conservation
 
-ANSATZE = ("UCCSD", "UpCCGSD1", "UpCCGSD2", "UCCGD", "pUCCD", "ADAPT")
+ANSATZE = ("UCCSD", "UCCSD-UHF", "UpCCGSD1", "UpCCGSD2", "UCCGD", "pUCCD", "ADAPT")
+UHF_MOLS = {"quick": ("H2", "H3"), "thorough": ("H2", "H3", "H4triplet", "H4+")}
 RUCC_ANGLES = ("0", "a", "b", "pi/2", "pi", "2pi+0.61")
 
 
 def make_ansatz(kind, mol, utd):
     from tangelo.toolboxes.ansatz_generator import UCCSD, UpCCGSD, UCCGD, RUCC, pUCCD
-    if kind == "UCCSD":
+    if kind in ("UCCSD", "UCCSD-UHF"):
         return UCCSD(mol, "JW", utd)
     if kind == "UpCCGSD1":
         return UpCCGSD(mol, "JW", utd, k=1)
@@ -897,7 +900,7 @@ def run_cons(acc, unit):
         acc.sample({"part": "e", "ansatz": kind, "layout": "up_then_down=True (enforced by VQESolver)", "angles": val}, cap=1)
         return
 
-    mol = molecule(mname, 0, seed)
+    mol = molecule(mname, 0, seed, uhf=(kind == "UCCSD-UHF"))
     n = int(mol.n_active_sos)
     ne, spin = int(mol.n_active_electrons), int(mol.active_spin)
 
@@ -1026,7 +1029,7 @@ def comm_catalogue(tier):
         return [("H2", 0, False), ("H3+", 0, False), ("H3", 0, False), ("H4", 0, False), ("LiH_f045", 0, False),
                 ("H3", 0, True), ("H4triplet", 0, False)]
     out = []
-    for m in ("H2", "H2_631g", "HeH+", "H3+", "H3", "H4", "H4rect", "H4triplet", "H4+", "H3-", "LiH_f045", "LiH_f034", "LiH_f03",
+    for m in ("H2", "H2_631g", "H3+", "H3", "H4", "H4rect", "H4triplet", "H4+", "H3-", "LiH_f045", "LiH_f034", "LiH_f03",
               "LiH_f23"):
         for gi in (0, 1):
             out.append((m, gi, False))
@@ -1059,6 +1062,8 @@ def cons_jobs(tier, seed):
         for kind in ANSATZE:
             if kind == "pUCCD" and m not in CLOSED:
                 continue          # pUCCD raises NotImplementedError for open shells
+            if kind == "UCCSD-UHF" and m not in UHF_MOLS[tier]:
+                continue
             for utd in ((False,) if kind == "pUCCD" else (False, True)):
                 if kind == "ADAPT":
                     k = get_excitation_number(n // 2)
@@ -1067,7 +1072,7 @@ def cons_jobs(tier, seed):
                     cost = sum((7.0 if c[3] else 0.7) * COST[n] * (len(c[1]) / 2.0 if len(c[1]) > 3 else 1.0) for c in ac)
                 else:
                     with quiet():
-                        k = int(make_ansatz(kind, mol, utd).n_var_params)
+                        k = int(make_ansatz(kind, molecule(m, 0, seed, uhf=True) if kind == "UCCSD-UHF" else mol, utd).n_var_params)
                     nc = len(param_cases(k, tier, seed))
                     cost = COST[n] * nc * (0.3 if kind == "pUCCD" else 1.0)
                 jobs.append((kind, m, utd, k, nc, max(1, int(math.ceil(cost / 5.0)))))
@@ -1108,10 +1113,12 @@ def run_shard(sh):
 
 def replay_case(case):
     acc = Acc()
-    unit = {k: v for k, v in case.items() if k not in ("focus", "opt")}
+    unit = {k: v for k, v in case.items() if k not in ("focus", "want", "opt")}
     RUN[unit["kind"]](acc, unit)
-    foc = case.get("focus")
-    if foc:
+    want, foc = case.get("want"), case.get("focus")
+    if want in acc.viol:
+        acc.viol = {want: acc.viol[want]}
+    elif foc:
         acc.viol = {k: v for k, v in acc.viol.items() if k.startswith(foc + "/")} or acc.viol
     return acc
 
